@@ -149,7 +149,7 @@ def run(m, chk):
         "relative to the minimum); both components of the Newton iterate are clamped on both sides after every update; loops are counter-bounded; the duplicate filter is passed; curves are not modified. "
         "Completeness (every crossing is found) and accuracy are not decided."
     )
-    chk.decides = ["RESIDUAL-FINAL (every non-empty answer of curve_and_curve passed the distance filter measured on the two curves themselves)", "STEP-APPLIED (the Newton iterate is returned only after the step computed for it has been applied)", "END-EXACT (the closed sample 0 .. 1 is mapped onto each parameter interval with an expression that is exact at both ends)", "RESIDUAL-DEGREE (the residual compared with 1e-6 is a distance, not a squared distance)", "ALL-COMPONENTS (the duplicate filter compares both parameters of a pair)", "PRECOND(non-empty)", "ABS-RESIDUAL", "CLAMP", "TERM", "must-pass-through(filter_pairs)", "PURE", "DEP-MAY (both curves, weights included)"]
+    chk.decides = ["TOL-AGREE (the selection of the best pairs uses one tolerance on every level: the union of the pieces is not selected more tolerantly than the pieces)", "RESIDUAL-FINAL (every non-empty answer of curve_and_curve passed the distance filter measured on the two curves themselves)", "STEP-APPLIED (the Newton iterate is returned only after the step computed for it has been applied)", "END-EXACT (the closed sample 0 .. 1 is mapped onto each parameter interval with an expression that is exact at both ends)", "RESIDUAL-DEGREE (the residual compared with 1e-6 is a distance, not a squared distance)", "ALL-COMPONENTS (the duplicate filter compares both parameters of a pair)", "PRECOND(non-empty)", "ABS-RESIDUAL", "CLAMP", "TERM", "must-pass-through(filter_pairs)", "PURE", "DEP-MAY (both curves, weights included)"]
     chk.not_decided = ["every crossing is found", "accuracy of the parameters"]
     # 0. the result depends on every field of both curves (weights included: a rational curve is not its control polygon)
     CC = "advanced.Intersection.curve_and_curve"
@@ -163,6 +163,9 @@ def run(m, chk):
         miss = [w for w in r.srcs(cctx.fi, needs) if not R.dep_has(have, w)]
         chk.ob("DEP-MAY", f"{CC}: `{seg(a, 40)}` depends on points, knot vector and weights of both curves", not miss, loc=r.loc(cctx, a), detail="" if not miss else f"{CC}: the pairs returned at {r.loc(cctx, a)} do not depend on {r.fmt_deps(cctx.fi, miss)}", func=CC, construct=f"result ignores {r.fmt_deps(cctx.fi, miss)}")
     # 0b. the sample parameters the Newton iteration starts from lie inside the interval, both ends included
+    from .extra import tol_agree
+
+    tol_agree(r, chk)
     from .extra import end_exact
 
     nee = end_exact(r, chk, ["advanced.Intersection.bcurve_and_bcurve"])
